@@ -27,12 +27,14 @@ CallsAgree(r) ==
         (r.obs[k].err = "none" /\ r.obs[n].err = "none") =>
             r.obs[k].shape = r.obs[n].shape /\ r.obs[k].hist = r.obs[n].hist
 
+\* the marginals are judged on the calls whose table is otherwise accepted
 FailingRec(r) ==
     IF r.kind = "box" THEN {"boxcar_average|" \o cl : cl \in BoxFailing(r.c, r.o)}
     ELSE {"histogram2d|" \o cl : cl \in
             UNION {HFailing(r.c, r.obs[k]) : k \in DOMAIN r.obs} \cup
             (IF r.kind = "h2d0" THEN {}       \* record without 1-d marginals (self-test probes)
-             ELSE UNION {HMargFailing(r.c, r.obs[k], "x", r.mx) \cup HMargFailing(r.c, r.obs[k], "y", r.my) : k \in DOMAIN r.obs}) \cup
+             ELSE UNION {IF HFailing(r.c, r.obs[k]) # {} THEN {}
+                         ELSE HMargFailing(r.c, r.obs[k], "x", r.mx) \cup HMargFailing(r.c, r.obs[k], "y", r.my) : k \in DOMAIN r.obs}) \cup
             (IF CallsAgree(r) THEN {} ELSE {"calls_differ"})}
 
 Check == tid > 0 =>
